@@ -762,6 +762,9 @@ def check_insert(ip, st, ret, bad):
         s = st.signs(ladd(atom('nu'), st.alpha(seq[i + 1][0]), -1))
         if not s <= frozenset('-0'):
             bad('order-succ', '%s: the new event is linked in front of an event that is not known to expire later' % where)
+    if tail == 'free2':
+        bad('free-tail', '%s: the pending list runs on into the free list behind the new event (its Next link still holds the free-list '
+                         'successor): free events would be treated as pending' % where)
     if st.get(('T', 'Free')) != ('n', 'free2'):
         bad('free-head', '%s: an event is linked into the pending list but the free list head does not advance to its successor' % where)
     if i == 0:
@@ -833,6 +836,10 @@ def check_service(ip, st, ret, bad):
         if a == TOP or want == TOP or a != want:
             bad('shifted:%s' % n, 'with the head elapsed (remaining time 0) event %s is due in %s but the timer / deltas give %s' % (
                 n, lshow(want), lshow(a)))
+    nx = st.load('c', F_NEXT)
+    if isinstance(nx, tuple) and nx[0] == 'n' and nx[1] in ('c1', 'c2', 'far') and st.isnull(nx[1]) is not True:
+        bad('elapsed-linked', 'the event moved to the elapsed list still links to the pending events behind it: they would be processed '
+                              'as elapsed')
     if names and st.get('R') is None:
         bad('no-reload', 'the head event elapsed and another event is pending but the hardware timer is not loaded')
     if not names and not st.get('stop'):
@@ -1217,4 +1224,144 @@ def run(ctx):
     n = _run_expiry(ctx)
     rearm_interval(ctx)
     tick_conversion(ctx)
+    return n
+
+
+# ------------------------------------------------------------------ thorough tier: mutation adequacy of RF16 (static)
+def _mutation_sites(fn):
+    """first-order mutation sites of a function body: (description, apply(), undo())"""
+    from canalyze.front import X
+    sites = []
+    tvars = {}
+    for n in walk(fn.body):
+        if n.k == 'ref' and n.refk in ('VarDecl', 'ParmVarDecl') and (n.cty or '').replace(' ', '') in ('CO_TMR_TIME*', 'structCO_TMR_TIME_T*'):
+            tvars[n.ref] = (n.name, n.refk)
+    for p in fn.params:
+        if p[2].replace(' ', '') in ('CO_TMR_TIME*', 'structCO_TMR_TIME_T*'):
+            tvars[p[3]] = (p[0], 'ParmVarDecl')
+
+    def parents(root):
+        for n in walk(root):
+            for i, k in enumerate(n.kids):
+                yield n, i, k
+
+    for (par, i, n) in parents(fn.body):
+        # M1: arithmetic operator of an integer expression
+        if n.k == 'bin' and n.op in ('+', '-', '+=', '-=') and int_type(n.cty) is not None and int_type(n.kids[0].cty) is not None:
+            new = {'+': '-', '-': '+', '+=': '-=', '-=': '+='}[n.op]
+
+            def ap(n=n, new=new):
+                n.op = new
+
+            def un(n=n, old=n.op):
+                n.op = old
+            sites.append(('line %d: `%s` with operator %s' % (n.line, show(n), new), ap, un))
+        # M2: which event's Delta
+        if n.k == 'mem' and n.field == F_DELTA and n.arrow:
+            b = strip(n.kids[0])
+            if b.k == 'mem' and b.field == F_NEXT and b.arrow:
+                def ap(n=n, b=b):
+                    n.kids[0] = b.kids[0]
+
+                def un(n=n, old=n.kids[0]):
+                    n.kids[0] = old
+                sites.append(('line %d: `%s` read/written as `%s->Delta` (Next dropped)' % (n.line, show(n), show(b.kids[0])), ap, un))
+            if b.k == 'ref' and b.ref in tvars:
+                for (ref2, (nm2, rk2)) in sorted(tvars.items()):
+                    if ref2 == b.ref:
+                        continue
+
+                    def ap(b=b, ref2=ref2, nm2=nm2, rk2=rk2):
+                        b.ref, b.name, b.refk = ref2, nm2, rk2
+
+                    def un(b=b, old=(b.ref, b.name, b.refk)):
+                        b.ref, b.name, b.refk = old
+                    sites.append(('line %d: `%s` taken from `%s` instead' % (n.line, show(n), nm2), ap, un))
+        # M3: statement deleted (stores to the list / timer driver calls)
+        if par.k == 'compound':
+            tgt = None
+            if n.k == 'bin' and n.op in ('=', '+=', '-='):
+                l = strip(n.kids[0])
+                if l.k == 'mem' and (l.field in (F_NEXT, F_DELTA) or (l.field and l.field[0] == 'CO_TMR' and l.field[1] in ('Use', 'Free'))):
+                    tgt = 'store'
+            if n.k == 'call' and callee_name(n) in ('COIfTimerReload', 'COIfTimerStart', 'COIfTimerStop'):
+                tgt = 'call'
+            if tgt:
+                def ap(par=par, i=i, line=n.line):
+                    z = X('null')
+                    z.line = line
+                    par.kids[i] = z
+
+                def un(par=par, i=i, old=n):
+                    par.kids[i] = old
+                sites.append(('line %d: statement `%s` deleted' % (n.line, show(n)), ap, un))
+    return sites
+
+
+def mutation_adequacy(ctx):
+    """How sharp is RF16 on THIS source?  Every first-order mutant of the three analysed functions (an arithmetic
+    operator flipped, a Delta taken from another event, a list store or a timer-driver call deleted) is built in memory on
+    the AST, re-analysed, and must be reported (or rejected as not analysable).  Nothing is compiled or run.  Mutants
+    that are not reported are listed in the evidence: they are either equivalent for the expiry times or a blind spot."""
+    import os
+    from canalyze import model as modelmod
+    from canalyze import cfg as cfgmod
+    base = ctx.m
+    unit = base.funcs['COTmrInsert'].unit
+    rel = os.path.relpath(base.funcs['COTmrInsert'].file, os.path.join(__import__('canalyze.front', fromlist=['x']).REPO, 'src')) \
+        if os.path.isabs(base.funcs['COTmrInsert'].file) else unit
+    mm = modelmod.Model(defs=getattr(base, 'config', ()), units=[unit])
+    roles = (('COTmrInsert', 'insert', check_insert), ('COTmrRemove', 'remove', check_remove), ('COTmrService', 'service', check_service))
+    table = []
+    killed = 0
+    total = 0
+    baseline = {}
+    for (fname, role, checker) in roles:
+        if fname not in mm.funcs:
+            raise AnalysisBroken('RF16 mutation analysis: %s not found in %s' % (fname, unit))
+        baseline[fname] = set(analyse_role(mm, ctx, fname, role, checker)[0])
+    for (fname, role, checker) in roles:
+        fn = mm.funcs[fname]
+        for (desc, ap, un) in _mutation_sites(fn):
+            ap()
+            mm._cfg.pop(fname, None)
+            verdict = None
+            try:
+                outcomes, ip = analyse_role(mm, ctx, fname, role, checker)
+                keys = sorted(set(k for bads in outcomes.values() for (k, msg) in bads))
+                lost = sorted(set(baseline[fname]) - set(outcomes))
+                if keys:
+                    verdict = 'reported: ' + ', '.join(keys[:3])
+                elif lost:
+                    verdict = 'path lost: the outcome "%s" no longer exists (the mutant dereferences a null event on it: RF5 reports that)' % lost[0][:60]
+                else:
+                    verdict = 'NOT reported'
+            except AnalysisBroken as e:
+                verdict = 'rejected (analysis-broken): %s' % str(e)[:80]
+            except Exception as e:      # a mutant may violate an internal assumption of the interpreter
+                verdict = 'rejected (%s)' % type(e).__name__
+            finally:
+                un()
+                mm._cfg.pop(fname, None)
+            total += 1
+            if not verdict.startswith('NOT'):
+                killed += 1
+            table.append({'function': fname, 'mutant': desc, 'verdict': verdict})
+            ctx.ob(['C07'], 'RF16-mutants', fname, desc, verdict if not verdict.startswith('NOT') else 'not reported (listed for triage; see DESIGN)',
+                   nontrivial=True)
+    ctx.table('C07', 'RF16 first-order mutants of COTmrInsert / COTmrRemove / COTmrService', table)
+    ctx.inst('RF16.mutants', total)
+    ctx.inst('RF16.mutants-reported', killed)
+    ctx.require_min(['C07'], 'RF16-mutants', total, 30, 'first-order mutants generated')
+    ctx.require_min(['C07'], 'RF16-mutants', killed, max(1, (total * 3) // 4), 'mutants reported (frozen floor: three quarters)')
+    return table
+
+
+_run_all = run
+
+
+def run(ctx):
+    n = _run_all(ctx)
+    if getattr(ctx, 'tier', 'quick') == 'thorough':
+        mutation_adequacy(ctx)
     return n
